@@ -88,8 +88,8 @@ def _validate(ck, kind, trace, summary, tag):
 def _design(ck, quick, wd):
     """Exhaustive design models: every history inside the bound (constants listed in the evidence)."""
     if quick:
-        tree = [(3, 2, [1], True), (3, 3, [], False)]
-        dag = [(3, 2, [1], True), (3, 3, [1], False)]
+        tree = [(3, 2, [1], True), (3, 3, [], "view")]
+        dag = [(3, 2, [1], True), (3, 3, [], False)]
     else:
         tree = [(3, 2, [1], True), (3, 3, [1, 2], False), (4, 4, [], "view")]
         dag = [(3, 2, [1], True), (3, 4, [1], False), (4, 3, [], False)]
